@@ -4,6 +4,7 @@ C02 — opening, closing, conditional operators, top-hats, `subm`
  `_morph.cpp`: `subm`). The compositions are exactly the Python ones, built from the C01 kernels.
 -/
 import Mahotas.Model.C01
+import Mahotas.Model.C14
 namespace Mahotas.C02
 open Mahotas Mahotas.C01
 
@@ -83,7 +84,7 @@ def handle (a : Args) : String :=
     let sup := support bshape bc dt.isBool
     let n := a.nat "n"
     let sh (x : Img Int) := showInts x.data.toList
-    s!"erode={sh (erodeImg dt f sup)} dilate={sh (dilateImg dt f sup)} open={sh (openModel dt f sup)} close={sh (closeModel dt f sup)} cerode={sh (cerodeModel dt f g sup)} cdilate={sh (cdilateModel dt f g sup n)} thopen={sh (tophatOpenModel dt f sup)} thclose={sh (tophatCloseModel dt f sup)} clearf={if clearOf dt sup f then 1 else 0} clearg={if clearOf dt sup g then 1 else 0}"
+    s!"erode={sh (erodeImg dt f sup)} dilate={sh (dilateImg dt f sup)} open={sh (openModel dt f sup)} close={sh (closeModel dt f sup)} cerode={sh (cerodeModel dt f g sup)} cdilate={sh (cdilateModel dt f g sup n)} thopen={sh (tophatOpenModel dt f sup)} thclose={sh (tophatCloseModel dt f sup)} clearf={if clearOf dt sup f then 1 else 0} clearg={if clearOf dt sup g then 1 else 0} symstar={if C14.symStarB (sup.filter (isMember dt)) then 1 else 0}"
   | k => s!"error=unknown-kind-{k}"
 
 end Mahotas.C02
